@@ -342,8 +342,11 @@ func scenarioCloseDuringPass(c *Ctx, cached bool) {
 	l2 := runUntil(s, C, func(l, _ string) bool { return l == "close.post-done" })
 	w.note("C parked at %s", l2)
 	// the in-flight pass finishes (and, on the pinned code, purges), the loop goroutine exits
-	l3 := runUntil(s, loop, never)
+	l3 := runUntil(s, loop, func(l, _ string) bool { return l == "loop.exit" })
 	w.note("loop %s", l3)
+	if l3 == "loop.exit" {
+		s.Release(loop) // the goroutine returns from reportLoop: there is no further hook to wait for
+	}
 	l4 := runUntil(s, C, never)
 	w.note("C %s err=%v", l4, closeErr)
 	s.Finish()
